@@ -4,10 +4,14 @@
 use hydro_lang::location::Location;
 
 fn main() {
-    println!("cargo::rerun-if-changed=build.rs");
+    println!("cargo::rerun-if-changed={}/../genm/build.rs", std::env::var("CARGO_MANIFEST_DIR").unwrap());
     let out_dir = std::env::var("OUT_DIR").unwrap();
     let seed = e4_flows::matrix::MATRIX_SEED;
-    let entries = matrixdef::entries(seed);
+    // this package is one of `N_SHARDS` identical packages `e4_genm<k>` sharing this build script:
+    // shard k compiles the entries with idx % N_SHARDS == k
+    let pkg = std::env::var("CARGO_PKG_NAME").unwrap();
+    let shard: usize = pkg.trim_start_matches("e4_genm").parse().expect("package name e4_genm<k>");
+    let entries: Vec<_> = matrixdef::entries(seed).into_iter().filter(|e| e.idx % matrixdef::N_SHARDS == shard).collect();
     let mut mods = String::new();
     let mut glue = String::new();
     let mut table = format!("pub const MATRIX_SEED: u64 = {seed};\npub const MATRIX: &[(&str, simio::ExecFn)] = &[\n");
